@@ -51,6 +51,9 @@ func (m *Metadata) ReadFrom(r io.Reader) (int64, error) {
 	if err != nil {
 		return 0, err
 	}
+	if len(lenb) != 4 {
+		return 0, io.ErrUnexpectedEOF
+	}
 	len := int(binary.BigEndian.Uint32(lenb))
 
 	for i := 0; i < len; i++ {
